@@ -400,7 +400,11 @@ class SArr:
         dst = [dst] if isinstance(dst, int) else list(dst)
         # read the permutation off the real NumPy on a probe shape
         probe = np.empty(tuple(range(2, 2 + self.ndim)))
-        moved = np.moveaxis(probe, src, dst)
+        try:
+            moved = np.moveaxis(probe, src, dst)
+        except (np.exceptions.AxisError, ValueError) as e:
+            # the real call fails the same way: the rank and the axis arguments are concrete here
+            raise RaiseSig(e)
         perm = [moved.shape[i] - 2 for i in range(self.ndim)]
         ctx().trust("np.moveaxis: axis permutation taken from the installed NumPy on a probe shape")
         return self.transpose(perm)
